@@ -356,7 +356,12 @@ class _RawConfigParser(configparser.RawConfigParser):
         return kwargs['fallback']
       raise configparser.NoOptionError(option, section)
     try:
-      return super(_RawConfigParser, self).get(section, option, **kwargs)
+      value = super(_RawConfigParser, self).get(section, option, **kwargs)
+      # A value that starts on the line after its key is delivered with the line break in front of it:
+      # 'target :\n  LAMMPS' means the same as 'target : LAMMPS'.
+      if hasattr(value, 'strip'):
+        value = value.strip()
+      return value
     except configparser.InterpolationError as e:
       # Unresolvable or malformed ${...} placeholder
       raise ConfigParserException("Could not resolve placeholder in [{}] '{}': {}".format(section, option, e.message))
